@@ -877,7 +877,7 @@ def c20(ctx):
     # expression that holds a time test: what is rendered must not depend on WHEN it is rendered
     os.environ['FPVERIF_RENDER_GAP_MS'] = '1100'
     try:
-        trace = record_procs(ctx, 'c20api', ['--count', str(pick(ctx, 25, 400)), '--seed', str(ctx.seed), '--paths', 'hostile', '--no-failprobe'], 1)
+        trace = record_procs(ctx, 'c20api', ['--count', str(pick(ctx, 25, 100)), '--seed', str(ctx.seed), '--paths', 'hostile', '--no-failprobe'], 1)
     finally:
         del os.environ['FPVERIF_RENDER_GAP_MS']
     api_validate(ctx, acc, 'c20api', trace, PURE_KINDS, timeout=6000)
